@@ -4,7 +4,7 @@
 // of that TU is left out of the link. No source of /repo is modified.
 // config: mode=<x0|done|eq>;n=<vars>;m=<inequalities>;p=<equalities>;lp=<0 QP|1 LP>;dup=<1: second equality row = multiple of the first>
 #include "hcommon.h"
-#include "../../../repo/src/program/solver.cpp"
+#include <program/solver.cpp> // resolved through -I<repo>/src (the TU is compiled into the harness to reach its private program_t)
 using namespace nano;
 using namespace nano::program;
 using namespace h;
